@@ -334,12 +334,12 @@ func (r *Run) Finish() int {
 		r.Property, r.Tier, r.Evaluations, len(r.cases), r.Programs, r.Exhaustive, len(unknown), len(r.Violations)-len(unknown), wall)
 	if len(unknown) > 0 {
 		for i, v := range unknown {
-			if i < 12 {
+			if i < 5 {
 				fmt.Printf("  violation cell=%s symptom=%s detail=%s\n", v.Cell, v.Symptom, oneLine(v.Detail))
 			}
 		}
 		for i, v := range unknown {
-			if i < 20 {
+			if i < 10 {
 				fmt.Printf("VIOLATION property=%s replay=%s\n", r.Property, v.file)
 			}
 		}
